@@ -349,6 +349,10 @@ type DoOpt struct {
 	Args  interface{}     // argument object instead of a Box holding the payload
 	Reply interface{}     // reply object instead of a Box holding the sentinel
 	Ctx   context.Context // context for the CallWithContext forms
+	// Out, when set, is the reply box to decode into: the caller's own reply
+	// variable, reused from call to call while the values of earlier calls are
+	// kept (it still holds the previous reply).
+	Out svc.Box
 }
 
 // Do performs one unary call in the given form and waits for it.
@@ -360,6 +364,11 @@ func Do(c Caller, form, codec, method string, spec svc.Spec, bufCap int, opt *Do
 	in.Set(args)
 	out := svc.NewBox(codec)
 	out.Set(append([]byte(nil), Sentinel...))
+	if opt != nil && opt.Out != nil {
+		out = opt.Out
+	}
+	prev := out.Get()
+	prevSum := svc.Sum(prev)
 	inObj, outObj := in.Ptr(), out.Ptr()
 	ctx := context.Background()
 	if opt != nil {
@@ -408,7 +417,8 @@ func Do(c Caller, form, codec, method string, spec svc.Spec, bufCap int, opt *Do
 	rec.EndT = time.Now()
 	if rec.Err != nil {
 		rec.ErrText = string(append([]byte(nil), rec.Err.Error()...))
-		rec.Sentinel = opt != nil && opt.Reply != nil || bytes.Equal(out.Get(), Sentinel)
+		now := out.Get()
+		rec.Sentinel = opt != nil && opt.Reply != nil || len(now) == len(prev) && (len(now) == 0 || &now[0] == &prev[0]) && svc.Sum(now) == prevSum
 		return rec
 	}
 	if opt != nil && opt.Reply != nil {
